@@ -308,9 +308,20 @@ class OpGen:
             op["track_id"] = int(nxt)
         else:
             op["track_id"] = int(nxt + rng.randint(2, 40))
-        if rng.random() < 0.2:
+        r2 = rng.random()
+        if r2 < 0.2:
             self._aim_at_division(tracks, op, "time")
             t = op["time"]
+        elif r2 < 0.38:
+            # into the gap of a frame-skipping edge, on the track that runs through it
+            g = tracks.graph
+            skips = [(u, v) for u, v in g.edges
+                     if node_time(tracks, v) - node_time(tracks, u) > 1]
+            if skips:
+                u, v = rng.choice(skips)
+                op["track_id"] = int(tracks.get_track_id(v if g.out_degree(u) == 2 else u))
+                op["time"] = rng.randrange(node_time(tracks, u) + 1, node_time(tracks, v))
+                t = op["time"]
         if tracks.segmentation is not None:
             occ = tracks.segmentation[t] != 0
             cells = grow_blob(rng, occ, rng.choice([1, 2, 3, 5, 8]))
